@@ -95,6 +95,7 @@ def run_checks(d, props, tier, inplace=False):
             raise SystemExit("patch does not apply: " + out)
         env = dict(os.environ)
         env["VERIF_REPO"] = root
+        env["VERIF_OUT"] = os.path.join(HERE, ".build", "seedout")  # keep evidence/ and replays/ of the unchanged tree intact
         for p in props:
             t0 = time.time()
             rc, out = sh("./check %s --tier %s" % (p, tier), cwd=HERE, env=env, timeout=7200)
